@@ -3,7 +3,7 @@ from props.opt_common import *
 
 class C02(OptCheck):
     prop = "C02"
-    vfiles = ["Properties/Properties_C02.v"]
+    vfiles = ["Properties/Properties_C02.v", "Tie/Tie_C04.v"]
     corpus = "C02.txt"
     oracle_args = ("oracle", "C02")
     design_ref = "DESIGN.md section 6, C02"
